@@ -42,6 +42,7 @@ type c16World struct {
 	userSec  []string
 	appRan   bool
 	appOK    bool
+	lastCtx  context.Context // context of the latest request that reached the application (carries that request's flow data)
 }
 
 func cavList(ids []uint64) []macaroon.Caveat {
@@ -167,6 +168,7 @@ type c16Act struct {
 	S      string // sref kind
 	F      uint64
 	Dec    string
+	InCtx  bool // background decision made with the context of the latest request the application handled (another flow's, usually)
 }
 
 func (a c16Act) tref() string {
@@ -228,6 +230,11 @@ func (w *c16World) secret(a c16Act, r *rng.R) string {
 
 func (w *c16World) do(a c16Act, r *rng.R) []int64 {
 	ctx := context.Background()
+	if a.InCtx && w.lastCtx != nil {
+		// the application decides about the flow named by the secret while serving a request of (usually) another flow:
+		// the decision concerns the flow the secret names, whatever the request context carries
+		ctx = w.lastCtx
+	}
 	switch a.Kind {
 	case "AInit":
 		var ticket []byte
@@ -246,6 +253,7 @@ func (w *c16World) do(a c16Act, r *rng.R) []int64 {
 		w.appRan = false
 		app := http.HandlerFunc(func(rw http.ResponseWriter, rq *http.Request) {
 			w.appRan = true
+			w.lastCtx = rq.Context()
 			switch a.Mode {
 			case "MImmediate":
 				w.tp.RespondDischarge(rw, rq, cavList(a.Cavs)...)
@@ -270,6 +278,7 @@ func (w *c16World) do(a c16Act, r *rng.R) []int64 {
 		w.appRan, w.appOK = false, true
 		app := http.HandlerFunc(func(rw http.ResponseWriter, rq *http.Request) {
 			w.appRan = true
+			w.lastCtx = rq.Context()
 			us, err := w.tp.Store.UserSecretFromRequest(rq)
 			if err != nil {
 				w.appOK = false
@@ -434,10 +443,10 @@ func genC16(c *ctx) {
 				a = c16Act{Kind: "AUserVisit", Dec: rng.Pick(r, []string{"DApprove", "DAbort", "DNone"}), Cavs: randCavs(), Msg: uint64(r.Intn(5))}
 				a.S, a.F = sref("SUser")
 			case x < 10:
-				a = c16Act{Kind: rng.Pick(r, []string{"AApprovePoll", "AAbortPoll"}), Cavs: randCavs(), Msg: uint64(r.Intn(5))}
+				a = c16Act{Kind: rng.Pick(r, []string{"AApprovePoll", "AAbortPoll"}), Cavs: randCavs(), Msg: uint64(r.Intn(5)), InCtx: r.Bool()}
 				a.S, a.F = sref("SPoll")
 			default:
-				a = c16Act{Kind: rng.Pick(r, []string{"AApproveUser", "AAbortUser"}), Cavs: randCavs(), Msg: uint64(r.Intn(5))}
+				a = c16Act{Kind: rng.Pick(r, []string{"AApproveUser", "AAbortUser"}), Cavs: randCavs(), Msg: uint64(r.Intn(5)), InCtx: r.Bool()}
 				a.S, a.F = sref("SUser")
 			}
 			ob := w.do(a, r)
